@@ -33,7 +33,7 @@ Print Assumptions C09_kept_state.
 
 (* A sub-cluster that stays in the gslb conf keeps its backend objects verbatim through BalanceGslb.Reload
    (only its weight is rewritten). *)
-Theorem C09_kept_subcluster : forall g l nl rel s w, reload_gslb g l = Some (nl, rel, false) ->
+Theorem C09_kept_subcluster : forall g l m nl rel m' s w, reload_gslb g l m = Some (nl, rel, false, m') ->
   In s l -> gfind (sname s) g = Some w -> In (mkSub (sname s) w (sbks s)) nl.
 Proof. exact gslb_keeps. Qed.
 Print Assumptions C09_kept_subcluster.
